@@ -1,29 +1,29 @@
 CONSTANTS
-  Hosts <- H2
+  Hosts <- H1
   HostPort <- MCHostPort
   SPorts <- P_SPorts
-  Dsts <- R1
-  Remotes <- R1
+  Dsts <- R2
+  Remotes <- R2
   Locals <- MCLocals
   DPorts <- DP80
   Protos <- P6
   Rnds <- P_Rnds
-  InPorts <- P_InPorts
+  InPorts <- NoPorts
   GwMacs <- GW1
   Vias <- Via1
   HasDns = FALSE
   Strict = FALSE
   Unit = 30
   Period = 1
-  FlowT = 1
-  MemT = 1
+  FlowT = 0
+  MemT = 0
   LowLimit = 3
   DynLo = 6
   DynWrap = 9
   OutPort = 3
   D = 0
 INIT Init
-NEXT Next
+NEXT NextCore
 VIEW viewE
 INVARIANT TypeOK
 INVARIANT KeysUnique
